@@ -1081,22 +1081,23 @@ def validate_create_tabulation(run, n=60):
     rng = run.rng
     cases, reqs = [], []
     for _ in range(n):
-        which = rng.choice(["pair", "dlpoly", "lammps", "eam"])
+        which = rng.choice(["pair", "dlpoly", "lammps", "eam", "adp"])
         sec = dict(cutoff=rng.choice([None, 2.5, 12.0, 0.5]), nr=rng.choice([None, 1, 2, 3, 4, 5, 8, 12, 1000, 1001]),
                    cutoff_rho=rng.choice([None, 50.0, 3.25]), nrho=rng.choice([None, 7, 500]))
         pf, bf = rng.random() < 0.12, rng.random() < 0.12
-        cases.append((which, sec, pf, bf))
-        reqs.append(dict(op="create_tabulation", which=which, pair_fails=pf, builder_fails=bf,
+        sfail = [nm for nm in ("EAM-ADP-Dipole", "EAM-ADP-Quadrupole") if rng.random() < 0.1]
+        cases.append((which, sec, pf, bf, sfail))
+        reqs.append(dict(op="create_tabulation", which=which, pair_fails=pf, builder_fails=bf, sections_fail=sfail,
                          **dict((k, (None if v is None else (common.fq(Fr(v)) if k.startswith("cutoff") else v))) for k, v in sec.items())))
     bad = 0
-    saved = (tf._create_pair_objects, tf.Potential_Form_Registry, tf.Modifier_Registry, tf.Reference_Data)
+    saved = (tf._create_pair_objects, tf.Potential_Form_Registry, tf.Modifier_Registry, tf.Reference_Data, tf.Pair_Potentials_From_Tuples_Builder)
     import logging
     logging.disable(logging.CRITICAL)
     try:
         tf.Potential_Form_Registry = lambda *a, **k: "pfr"
         tf.Modifier_Registry = lambda *a, **k: "mr"
         tf.Reference_Data = lambda *a, **k: "rd"
-        for (which, sec, pf, bf), a in zip(cases, query_gen(reqs)):
+        for (which, sec, pf, bf, sfail), a in zip(cases, query_gen(reqs)):
             class Pot(object):
                 speciesA, speciesB = "A", "B"
 
@@ -1119,15 +1120,29 @@ def validate_create_tabulation(run, n=60):
                 return [len(x) if isinstance(x, list) else x for x in args]
             tf._create_pair_objects = pair_objects
 
+            class SectionBuilder(object):
+                # stands for Pair_Potentials_From_Tuples_Builder in the ADP factory: the objects of the section whose tuples it is handed
+                def __init__(self, tuples, pfr, mr, section_name):
+                    if tuples != "tuples of " + section_name:
+                        raise AssertionError("the builder was handed %r for %r" % (tuples, section_name))
+                    if section_name in sfail:
+                        raise ConfigurationException("section builder refuses")
+                    self.potentials = [Pot()] * {"EAM-ADP-Dipole": 1, "EAM-ADP-Quadrupole": 4}.get(section_name, 0)
+            tf.Pair_Potentials_From_Tuples_Builder = SectionBuilder
+
             class Cp(object):
                 species = {}
 
                 class tabulation(object):
                     pass
+
+                def parse_pair_like(self, section_name):
+                    return "tuples of " + section_name
             for k, v in sec.items():
                 setattr(Cp.tabulation, k, v)
             fac = {"pair": lambda: tf.PairTabulationFactory("t", recorder), "dlpoly": lambda: tf.DLPOLY_PairTabulationFactory("t", recorder),
-                   "lammps": lambda: tf.LAMMPS_PairTabulationFactory("t", recorder), "eam": lambda: tf.EAMTabulationFactory("t", recorder, Builder)}[which]()
+                   "lammps": lambda: tf.LAMMPS_PairTabulationFactory("t", recorder), "eam": lambda: tf.EAMTabulationFactory("t", recorder, Builder),
+                   "adp": lambda: tf.ADP_EAMTabulationFactory("t", recorder, Builder)}[which]()
             try:
                 real = [common.fq(Fr(x)) for x in fac.create_tabulation(Cp())]
             except ConfigurationException as e:
@@ -1139,9 +1154,9 @@ def validate_create_tabulation(run, n=60):
             if real != a:
                 bad += 1
                 if bad <= 2:
-                    run.tie_broken("translator", "generated create_tabulation vs the real factories", "%s factory, [Tabulation] %s, pair builder fails %s, EAM builder fails %s: real %s generated %s"
-                                   % (which, sec, pf, bf, real, a))
+                    run.tie_broken("translator", "generated create_tabulation vs the real factories", "%s factory, [Tabulation] %s, pair builder fails %s, EAM builder fails %s, ADP sections failing %s: real %s generated %s"
+                                   % (which, sec, pf, bf, sfail, real, a))
     finally:
-        tf._create_pair_objects, tf.Potential_Form_Registry, tf.Modifier_Registry, tf.Reference_Data = saved
+        tf._create_pair_objects, tf.Potential_Form_Registry, tf.Modifier_Registry, tf.Reference_Data, tf.Pair_Potentials_From_Tuples_Builder = saved
         logging.disable(logging.NOTSET)
     return len(cases)
